@@ -412,20 +412,82 @@ func (e *eng) forLoop() {
 	}
 	pos := e.p.Pos(fn.Pos())
 	st := t.Underlying().(*types.Struct)
-	mk := func(in *absint.Interp) absint.Val {
+	mkN := func(in *absint.Interp, names []string) absint.Val {
 		z := absint.Zero(t).(*absint.Struct)
 		f := append([]absint.Val(nil), z.F...)
 		for i := 0; i < st.NumFields(); i++ {
 			switch st.Field(i).Name() {
 			case "VarRefs":
-				f[i] = &absint.Struct{T: st.Field(i).Type(), F: []absint.Val{absint.NewSliceIn(in, e.nodeNm, []absint.Val{e.nameVal("i"), e.nameVal("a")})}}
+				var vs []absint.Val
+				for _, n := range names {
+					vs = append(vs, e.nameVal(n))
+				}
+				f[i] = &absint.Struct{T: st.Field(i).Type(), F: []absint.Val{absint.NewSliceIn(in, e.nodeNm, vs)}}
 			case "Iterators":
-				f[i] = &absint.Struct{T: st.Field(i).Type(), F: []absint.Val{absint.NewSliceIn(in, e.nodeNm, []absint.Val{&child{name: "it0"}, &child{name: "it1"}})}}
+				var its []absint.Val
+				for j := range names {
+					its = append(its, &child{name: fmt.Sprintf("it%d", j)})
+				}
+				f[i] = &absint.Struct{T: st.Field(i).Type(), F: []absint.Val{absint.NewSliceIn(in, e.nodeNm, its)}}
 			case "Body":
 				f[i] = &child{name: "body"}
 			}
 		}
 		return &absint.Struct{T: t, F: f}
+	}
+	mk := func(in *absint.Interp) absint.Val { return mkN(in, []string{"i", "a"}) }
+	// every combination of loop variables that already exist in the function
+	// and new ones (1..3 variables, one unrelated local before them): an
+	// existing variable keeps its slot, a new one takes the next free slot at
+	// the moment it is registered, so that slots stay dense and distinct
+	for n := 1; n <= 3; n++ {
+		names := []string{"p", "q", "r"}[:n]
+		for mask := 0; mask < 1<<n; mask++ {
+			scope := map[string]int64{"z": 0}
+			var pre []string
+			for j, nm := range names {
+				if mask&(1<<j) != 0 {
+					scope[nm] = int64(len(scope))
+					pre = append(pre, nm)
+				}
+			}
+			fmtScope := func(m map[string]int64) string {
+				var ks []string
+				for k := range m {
+					ks = append(ks, k)
+				}
+				sort.Strings(ks)
+				var out []string
+				for _, k := range ks {
+					out = append(out, fmt.Sprintf("%s=%d", k, m[k]))
+				}
+				return "{" + strings.Join(out, ",") + "}"
+			}
+			before := fmtScope(scope)
+			final := map[string]int64{}
+			for k, v := range scope {
+				final[k] = v
+			}
+			var vr, its []string
+			for j, nm := range names {
+				if _, ok := final[nm]; !ok {
+					final[nm] = int64(len(final))
+				}
+				vr = append(vr, fmt.Sprintf("Local{Ix:%d VarName:%q}", final[nm], nm))
+				its = append(its, fmt.Sprintf("rw(it%d)@[%s]", j, before))
+			}
+			want := fmt.Sprintf("For{VarRefs:{Elems:[%s]} Iterators:{Elems:[%s]} Body:rw(body)@[%s]}", strings.Join(vr, ", "), strings.Join(its, ", "), fmtScope(final))
+			key := fmt.Sprintf("node.For.STRewrite / %d loop variable(s), already local: [%s]", n, strings.Join(pre, " "))
+			c := e.newCtx()
+			res, end := c.in.Run(fn, []absint.Val{mkN(c.in, names), e.mkTable(c.in, []map[string]int64{scope})})
+			if end != nil {
+				e.s.Unk("S3", key, pos, "could not be evaluated: "+end.Error())
+			} else if got := e.render(res); got == want {
+				e.s.OK("S3", key, pos, got)
+			} else {
+				e.s.Bad("S3", key, pos, fmt.Sprintf("a loop variable that is already a local keeps its slot, a new one takes the next free slot (the size of the scope when it is registered): slots stay distinct and below LocalCnt; expected %s, got %s", want, got))
+			}
+		}
 	}
 	{
 		c := e.newCtx()
